@@ -53,14 +53,19 @@ class S:
     vec = None      # None: scalar / per-cell value ; "row": 1-D array over the packed unknowns (numpy broadcasts
                     # it along the last axis of a matrix: COLUMN scaling) ; "col": the same with [:, None] (ROW scaling)
 
-    def __init__(self, poly, kinds=frozenset(), vec=None):
+    tiled = False   # a per-cell array expanded to the unknowns with np.tile (variable-major) instead of np.repeat
+                    # (cell-major, the layout of the packed vectors): each cell then gets other cells' values
+
+    def __init__(self, poly, kinds=frozenset(), vec=None, tiled=False):
         self.poly = {k: Fraction(c) for k, c in poly.items() if c != 0}
         self.kinds = frozenset(kinds)
         if vec is not None:
             self.vec = vec
+        if tiled:
+            self.tiled = True
 
-    def as_vec(self, vec):
-        return S(self.poly, self.kinds, vec)
+    def as_vec(self, vec, tiled=None):
+        return S(self.poly, self.kinds, vec, self.tiled if tiled is None else tiled)
 
     @staticmethod
     def lift(v):
@@ -96,7 +101,7 @@ class S:
         if isinstance(o, (AArr, Op, Packed, JacMat)):
             return o.__rmul__(self)
         o = S.lift(o)
-        return S(_pmul(self.poly, o.poly), self.kinds | o.kinds, self.vec or o.vec)
+        return S(_pmul(self.poly, o.poly), self.kinds | o.kinds, self.vec or o.vec, self.tiled or o.tiled)
 
     __rmul__ = __mul__
 
@@ -105,7 +110,7 @@ class S:
         if len(o.poly) != 1:
             raise AnalysisError("division by a non-monomial scalar")
         (k, c), = o.poly.items()
-        return S({a - k: b / c for a, b in self.poly.items()}, self.kinds | o.kinds, self.vec or o.vec)
+        return S({a - k: b / c for a, b in self.poly.items()}, self.kinds | o.kinds, self.vec or o.vec, self.tiled or o.tiled)
 
     def __rtruediv__(self, o):
         return S.lift(o) / self
@@ -306,11 +311,18 @@ class Opaque:
 class Op:
     """matrix  sum_k c_k D^k  +  b * D^rowp J D^colp   with D = diag(dt) (dt scalar or one value per
     cell): the identity part commutes with D, the Jacobian part does not for a local-time-step array"""
+    tiled = False
+
     def __init__(self, ident=None, jac=None, jtag=None, rowp=0, colp=0):
         self.ident = dict(ident or {})    # dt-poly
         self.jac = Fraction(jac or 0)
         self.jtag = jtag
         self.rowp, self.colp = rowp, colp
+
+    def _t(self, *others):
+        if self.tiled or any(getattr(o, "tiled", False) for o in others):
+            self.tiled = True
+        return self
 
     def _same_scaling(self, o):
         if self.jac and o.jac and (self.rowp, self.colp) != (o.rowp, o.colp):
@@ -321,29 +333,29 @@ class Op:
     def __add__(self, o):
         if isinstance(o, Op):
             r, c = self._same_scaling(o)
-            return Op(_padd(self.ident, o.ident), self.jac + o.jac, self.jtag if self.jtag is not None else o.jtag, r, c)
+            return Op(_padd(self.ident, o.ident), self.jac + o.jac, self.jtag if self.jtag is not None else o.jtag, r, c)._t(self, o)
         raise AnalysisError("matrix + non-matrix")
 
     def __sub__(self, o):
         if isinstance(o, Op):
             r, c = self._same_scaling(o)
-            return Op(_padd(self.ident, o.ident, -1), self.jac - o.jac, self.jtag if self.jtag is not None else o.jtag, r, c)
+            return Op(_padd(self.ident, o.ident, -1), self.jac - o.jac, self.jtag if self.jtag is not None else o.jtag, r, c)._t(self, o)
         raise AnalysisError("matrix - non-matrix")
 
     def __neg__(self):
-        return Op({k: -c for k, c in self.ident.items()}, -self.jac, self.jtag, self.rowp, self.colp)
+        return Op({k: -c for k, c in self.ident.items()}, -self.jac, self.jtag, self.rowp, self.colp)._t(self)
 
     def __rmul__(self, s):
         s = S.lift(s)
         if not self.jac or s.is_const():
-            return Op(_pmul(self.ident, s.poly), self.jac * s.const() if s.is_const() else 0, self.jtag, self.rowp, self.colp)
+            return Op(_pmul(self.ident, s.poly), self.jac * s.const() if s.is_const() else 0, self.jtag, self.rowp, self.colp)._t(self, s)
         if len(s.poly) != 1:
             raise AnalysisError("Jacobian scaled by a non-monomial dt-dependent factor")
         (k, c), = s.poly.items()
         if s.vec == "col":
-            return Op(_pmul(self.ident, s.poly), self.jac * c, self.jtag, self.rowp + k, self.colp)
+            return Op(_pmul(self.ident, s.poly), self.jac * c, self.jtag, self.rowp + k, self.colp)._t(self, s)
         if s.vec == "row":
-            return Op(_pmul(self.ident, s.poly), self.jac * c, self.jtag, self.rowp, self.colp + k)
+            return Op(_pmul(self.ident, s.poly), self.jac * c, self.jtag, self.rowp, self.colp + k)._t(self, s)
         raise AnalysisError("Jacobian scaled by a dt-dependent factor that is not an array over the unknowns")
 
     __mul__ = __rmul__
@@ -1223,9 +1235,14 @@ class AffInterp:
         if base == "repeat":
             v = args[0]
             return v.as_vec("row") if isinstance(v, S) else v      # one entry per packed unknown
+        if base == "tile":
+            v = args[0]
+            return v.as_vec("row", tiled=True) if isinstance(v, S) else v
         if base == "diag":
             d = S.lift(args[0])
-            return Op(d.poly, 0)
+            op = Op(d.poly, 0)
+            op.tiled = d.tiled
+            return op
         if base in ("eye", "identity"):
             return Op({0: Fraction(1)}, 0)
         if base in ("round", "around") and args:
